@@ -277,7 +277,7 @@ def _gen_arr_write(w, rng):
 def _gen_reject(w, rng):
     existing = [p for p in PATHS if p in w.files]
     missing = [p for p in PATHS if p not in w.files]
-    kind = rng.choice(["append_missing", "exclusive_existing", "size_mismatch", "open_missing"])
+    kind = rng.choice(["append_missing", "exclusive_existing", "exclusive_existing", "size_mismatch", "open_missing"])
     if kind in ("append_missing", "open_missing"):
         if not missing:
             return None
@@ -293,7 +293,7 @@ def _gen_reject(w, rng):
         spec = gen_dataset_spec(rng, w.cfg, nvars=1)
         vs = spec["vars"][0]
         arr = {"dims": vs["dims"], "labels": [spec["dims"][d] for d in vs["dims"]], "dtype": vs["dtype"], "values": vs["values"]}
-        return {"op": "reject", "kind": kind, "path": path, "name": vs["name"], "arr": arr}
+        return {"op": "reject", "kind": kind, "path": path, "name": vs["name"], "arr": arr, "via": rng.choice(["w-", "w_noclobber", "ds_noclobber"])}
     cands = [d for d, v in fm.dims.items() if v["labels"] and not v["unknown"] and not v["unlimited"]]
     free = [n for n in VARNAMES if n not in fm.vars and n not in fm.dims]
     if not cands or not free:
@@ -520,7 +520,14 @@ def x_reject(w, s):
     elif kind == "exclusive_existing":
         if fm is None:
             raise Skip("missing")
-        call = lambda: a.write_nc(path, name, mode="w-")
+        via = s.get("via", "w-")
+        if via == "w-":
+            call = lambda: a.write_nc(path, name, mode="w-")
+        elif via == "w_noclobber":
+            call = lambda: a.write_nc(path, name, mode="w", clobber=False)
+        else:
+            from dimarray import Dataset
+            call = lambda: Dataset({name: a}).write_nc(path, mode="w", clobber=False)
     else:
         if fm is None or name in fm.vars or name in fm.dims:
             raise Skip("stale")
